@@ -302,13 +302,26 @@ class MetaParserModel:
                 if any(pat_lits(p) for p in pats):
                     sel = ('match', e)
                     break
+        def name_tests(c):
+            """string literals of `x == "a"` / `x == "a" || x == "b"` (same x), else None"""
+            if c['k'] == 'Paren':
+                return name_tests(c['expr'])
+            if c['k'] == 'Binary' and c['op'] == '==' and c['r_']['k'] == 'Lit' and c['r_']['lit']['k'] == 'Str':
+                return (es(c['l_']), [c['r_']['lit']['v']])
+            if c['k'] == 'Binary' and c['op'] == '||':
+                a, b = name_tests(c['l_']), name_tests(c['r_'])
+                if a is not None and b is not None and a[0] == b[0]:
+                    return (a[0], a[1] + b[1])
+            return None
         if sel is None:
+            ifs = []
             for e in cevs:
                 if e.kind == 'branch' and e.pos['k'] == 'if':
-                    c = e.node['cond']
-                    if c['k'] == 'Binary' and c['op'] == '==' and c['r_']['k'] == 'Lit' and c['r_']['lit']['k'] == 'Str':
-                        sel = ('if', e)
-                        break
+                    nt = name_tests(e.node['cond'])
+                    if nt is not None and not any(_under(e, x.pos['id'], pol=True) for x, _ in ifs):
+                        ifs.append((e, nt))
+            if ifs:
+                sel = ('if', ifs)
         if sel is None:
             self.problems.append('no parameter selection found in the handler closure')
             return
@@ -328,9 +341,8 @@ class MetaParserModel:
                     if inner:
                         self.problems.append('the fallback arm for unknown parameters is not empty')
         else:
-            e = sel[1]
-            c = e.node['cond']
-            groups.append(ParamModel([c['r_']['lit']['v']], e.pos['id'], None, True, e.line))
+            for e, nt in sel[1]:
+                groups.append(ParamModel(list(nt[1]), e.pos['id'], None, True, e.line))
         for g in groups:
             evs = [x for x in cevs if _under(x, g.entry_id, idx=g.idx, pol=g.pol)]
             self.fill_param(g, evs)
@@ -376,7 +388,10 @@ class MetaParserModel:
                 t = e.target
                 if t['k'] == 'Path':
                     nm = t['path']['s']
-                    if nm.endswith('_is_set'):
+                    d_ = e.scope.lookup(nm)
+                    is_flag = nm.endswith('_is_set') or (d_ is not None and d_.kind == 'let' and d_.init is not None and es(d_.init) == 'false'
+                                                         and es(e.value) == 'true' and g.reset_flag == nm)
+                    if is_flag:
                         if es(e.value) == 'true':
                             g.flag_set = nm
                             seq.append(('flag', e.seq))
